@@ -4,6 +4,7 @@ import (
 	"encoding/json"
 	"fmt"
 	"math"
+	"reflect"
 	"strings"
 	"testing"
 	"time"
@@ -190,6 +191,46 @@ func valueClasses(ts *gen.TypeSpec, vals map[string]any) (labels []string, nonze
 	return labels, nonzero, special
 }
 
+// scribble overwrites, in place, every value of the resource that is held
+// behind a pointer or in a slice.
+func scribble(ts *gen.TypeSpec, res jsonapi.Resource) {
+	oracle.Try(func() {
+		for _, a := range ts.Attrs {
+			v := reflect.ValueOf(res.Get(a.Name))
+
+			switch {
+			case v.Kind() == reflect.Ptr && !v.IsNil():
+				if e := v.Elem(); e.Kind() == reflect.Slice {
+					for i := 0; i < e.Len(); i++ {
+						e.Index(i).Set(reflect.Zero(e.Type().Elem()))
+					}
+				} else if e.CanSet() {
+					switch e.Kind() {
+					case reflect.Bool:
+						e.SetBool(!e.Bool())
+					case reflect.String:
+						e.SetString("scribbled")
+					default:
+						e.Set(reflect.Zero(e.Type()))
+					}
+				}
+			case v.Kind() == reflect.Slice:
+				for i := 0; i < v.Len(); i++ {
+					v.Index(i).Set(reflect.Zero(v.Type().Elem()))
+				}
+			}
+		}
+
+		for _, r := range ts.Rels {
+			if ids, ok := res.Get(r.FromName).([]string); ok {
+				for i := range ids {
+					ids[i] = "scribbled"
+				}
+			}
+		}
+	})
+}
+
 func TestC01RoundTrip(t *testing.T) {
 	r := rec.For("C01RoundTrip")
 
@@ -250,6 +291,7 @@ func TestC01RoundTrip(t *testing.T) {
 		)
 
 		id := vals["id"].(string)
+		firstMember := ""
 
 		p := oracle.Try(func() {
 			switch mode {
@@ -289,6 +331,13 @@ func TestC01RoundTrip(t *testing.T) {
 					if err == nil {
 						if c, ok := d2.Data.(jsonapi.Collection); ok && c.Len() == 2 {
 							got = c.At(1)
+
+							// the member in front is still what it was
+							if f := c.At(0); f == nil {
+								firstMember = "the member in front of it came back as nil"
+							} else if f.GetType().Name != ots.Name || f.Get("id") != id+"-other" {
+								firstMember = fmt.Sprintf("the member in front of it (type %q, id %q) came back with type %q and id %q", ots.Name, id+"-other", f.GetType().Name, f.Get("id"))
+							}
 						}
 					}
 				}
@@ -316,6 +365,15 @@ func TestC01RoundTrip(t *testing.T) {
 		if msg := compareWithVals(ts, vals, got); msg != "" {
 			t.Fatalf("C01 violated: %s\ncase: %s\npayload: %s", msg, desc, payload)
 		}
+
+		if firstMember != "" {
+			t.Fatalf("C01 violated: %s\ncase: %s\npayload: %s", firstMember, desc, payload)
+		}
+
+		// What came back belongs to the caller, who may write through the
+		// pointers and slices it holds; the next round trip (this process
+		// runs thousands) must not notice.
+		scribble(ts, got)
 
 		labels, nonzero, special := valueClasses(ts, vals)
 		labels = append(labels, "mode:"+mode)
